@@ -3033,6 +3033,11 @@ impl Interpreter {
                         state.yield_result_register = Some(yield_result.resume_register);
                         // Save current environment (may include block scopes)
                         state.current_env = Some(self.env.cheap_clone());
+                        Self::park_generator_scopes(
+                            &mut self.env_guards,
+                            &mut state,
+                            yield_result.state.saved_env_stack,
+                        );
                     }
                     self.env = saved_env;
                     Ok(builtins::create_generator_result(
@@ -3053,6 +3058,11 @@ impl Interpreter {
                         state.yield_result_register = Some(yield_star_result.resume_register);
                         // Save current environment (may include block scopes)
                         state.current_env = Some(self.env.cheap_clone());
+                        Self::park_generator_scopes(
+                            &mut self.env_guards,
+                            &mut state,
+                            yield_star_result.state.saved_env_stack,
+                        );
                     }
                     // Delegate to the iterable - get its iterator and next value
                     self.start_yield_star_delegation(
@@ -3077,6 +3087,17 @@ impl Interpreter {
             }
         } else {
             // Resume from saved state
+            // Re-open the block scopes that were open at the yield: the VM gets its scope stack
+            // back and every open scope gets the guard that leaving the block will pop.
+            let open_scopes = mem::take(&mut gen_state.borrow_mut().saved_env_stack);
+            let open_scope_count = open_scopes.len();
+            for i in 0..open_scope_count {
+                let scope_guard = self.heap.create_guard();
+                let scope_env = open_scopes.get(i + 1).unwrap_or(&self.env);
+                scope_guard.guard(scope_env.cheap_clone());
+                self.env_guards.push(scope_guard);
+            }
+
             // Create guard for the saved state
             let state_guard = self.heap.create_guard();
 
@@ -3105,7 +3126,7 @@ impl Interpreter {
                 new_target: JsValue::Undefined,
                 trampoline_stack: Vec::new(), // Generators run at top level
                 this_value: None,
-                saved_env_stack: Vec::new(),
+                saved_env_stack: open_scopes,
                 pending_completion: None,
                 exception_value: None,
                 current_constructor: None,
@@ -3124,6 +3145,9 @@ impl Interpreter {
                 if !vm.inject_exception(self, exception.clone()) {
                     // No exception handler found, propagate the error
                     gen_state.borrow_mut().status = GeneratorStatus::Completed;
+                    for _ in 0..open_scope_count {
+                        self.env_guards.pop();
+                    }
                     self.env = saved_env;
                     let guarded = Guarded::from_value(exception, &self.heap);
                     return Err(JsError::ThrownValue { guarded });
@@ -3153,6 +3177,11 @@ impl Interpreter {
                         state.yield_result_register = Some(yield_result.resume_register);
                         // Save current environment (may include block scopes)
                         state.current_env = Some(self.env.cheap_clone());
+                        Self::park_generator_scopes(
+                            &mut self.env_guards,
+                            &mut state,
+                            yield_result.state.saved_env_stack,
+                        );
                     }
                     self.env = saved_env;
                     Ok(builtins::create_generator_result(
@@ -3172,6 +3201,11 @@ impl Interpreter {
                         state.yield_result_register = Some(yield_star_result.resume_register);
                         // Save current environment (may include block scopes)
                         state.current_env = Some(self.env.cheap_clone());
+                        Self::park_generator_scopes(
+                            &mut self.env_guards,
+                            &mut state,
+                            yield_star_result.state.saved_env_stack,
+                        );
                     }
                     self.start_yield_star_delegation(
                         gen_state,
@@ -3193,6 +3227,21 @@ impl Interpreter {
                 }
             }
         }
+    }
+
+    /// A generator that yields inside block scopes takes its open scopes with it: the VM's
+    /// scope stack is kept in the generator state for the next resumption, and the guards of
+    /// those scopes leave the interpreter's guard stack (the generator state keeps the
+    /// environments alive from now on).
+    fn park_generator_scopes(
+        env_guards: &mut Vec<Guard<JsObject>>,
+        state: &mut BytecodeGeneratorState,
+        open_scopes: Vec<Gc<JsObject>>,
+    ) {
+        for _ in 0..open_scopes.len() {
+            env_guards.pop();
+        }
+        state.saved_env_stack = open_scopes;
     }
 
     /// Start yield* delegation - get the first value from the iterable
@@ -4279,6 +4328,7 @@ impl Interpreter {
             yield_result_register: None,
             func_env: None,           // Will be created on first call to next()
             current_env: None,        // Will be saved at each yield point
+            saved_env_stack: Vec::new(),
             delegated_iterator: None, // For yield* delegation
             is_async: false,          // Regular generator, not async
             throw_value: None,        // For generator.throw()
@@ -4322,6 +4372,7 @@ impl Interpreter {
             yield_result_register: None,
             func_env: None,           // Will be created on first call to next()
             current_env: None,        // Will be saved at each yield point
+            saved_env_stack: Vec::new(),
             delegated_iterator: None, // For yield* delegation
             is_async: true,           // Async generator - next() returns Promise
             throw_value: None,        // For generator.throw()
